@@ -119,7 +119,7 @@ extract_default.outcomes = [
 
 needs_quoting = Contract(
     "doctrans.defaults_utils:needs_quoting",
-    properties=["C17", "C08", "C02"],
+    properties=["C17", "C08", "C02", "C18"],
     note="only the three branches before the type string is parsed are under contract; the `ast` part is "
          "an uninterpreted predicate nq_spec (CPython's needs_quoting in the bounded companion)",
     cases=[
@@ -127,11 +127,19 @@ needs_quoting = Contract(
         Case("star", {"typ": "str"}, assume=["typ.startswith('*')"]),
         Case("str", {"typ": ("lit", "str")}),
         Case("Optional[str]", {"typ": ("lit", "Optional[str]")}),
+        Case("general", {"typ": "str"}, assume=["not typ.startswith('*')", "typ not in ('str', 'Optional[str]')"],
+             stop_after="parsed_typ_ast = ast_parse_fix(typ)"),
     ],
+    ghosts={"parsed_typ_ast = ast_parse_fix(typ)": [("g_norm", "typ")]},
     ensures=[
         Clause("NQ1", "result == False", when=["None", "star"]),
         Clause("NQ2", "result == True", when=["str", "Optional[str]"]),
+        Clause("NQ-norm", "('\\n' in g_norm) == False and g_norm[:1] not in (' ', '\\t') and g_norm[-1:] not in (' ', '\\t')", when=["general"],
+               note="C18: what is handed to the parser is the type text without line breaks (a wrapped type line re-joins) and without outer blanks"),
+        Clause("NQ-norm-id", "('\\n' in typ) or g_norm == typ.strip()", when=["general"],
+               note="a type text without line breaks is only stripped"),
     ],
+    canaries=["result == True", "g_norm == typ"],
     outcomes=[Outcome("any", "bool", [
         "not (typ is None or typ.startswith('*')) or result == False",
         "typ not in ('str', 'Optional[str]') or result == True",
@@ -140,6 +148,7 @@ needs_quoting = Contract(
     ])],
 )
 
+needs_quoting.opaque = {"ast_parse_fix": {"ret": "obj"}}
 NONESTR = "```(None)```"
 
 
@@ -269,6 +278,12 @@ def _id_cases():
                 d["typ"] = tspec
             out.append(Case("require=%s,%s" % (req, tk), {"param": ("tuple", ["str", ("dict", d)]), "default_search_announce": None,
                                                        "require_default": req, "emit_default_doc": True}))
+    for tk, tspec in (("notyp", None), ("typ", "str")):
+        d = {"doc": "str", "default": "str"}
+        if tspec:
+            d["typ"] = tspec
+        out.append(Case("require=False,%s,has" % tk, {"param": ("tuple", ["str", ("dict", d)]), "default_search_announce": None,
+                                                      "require_default": False, "emit_default_doc": True}))
     out.append(Case("nodoc,require", {"param": ("tuple", ["str", ("dict", {"typ": "str"})]), "default_search_announce": None,
                                       "require_default": True, "emit_default_doc": True}))
     return out
@@ -282,6 +297,7 @@ interpolate_defaults = Contract(
     note="extract_default is applied by contract (one outcome per type of the extracted default)",
     cases=_id_cases(),
     use_contract_for=["doctrans.defaults_utils:extract_default"],
+    raises={"ValueError": "'typ' in param[1]", "SyntaxError": "'typ' in param[1]"},  # inherited from extract_default (a declared scalar type that does not describe the text)
     ghosts={"doc, default = extract_default(": [("g_default", "default")]},
     ensures=[
         Clause("ID1", "result[0] == param[0] and result[1] is param[1]", note="same name, same dict object"),
@@ -293,6 +309,8 @@ interpolate_defaults = Contract(
                when=[c.name for c in _id_cases() if c.name.startswith("require")], note="a string default is stored unquoted (one layer)"),
         Clause("ID5", "g_default is None or typeis(g_default, 'str') or result[1]['default'] == g_default",
                when=[c.name for c in _id_cases() if c.name.startswith("require")], note="int / bool / float defaults are stored as extracted (type kept)"),
+        Clause("ID9", "g_default is not None or result[1]['default'] == old_param[1]['default']", when=["require=False,notyp,has", "require=False,typ,has"],
+               note="an entry's existing default survives when the prose announces none; when it announces one, ID4 / ID5 say the announced one wins"),
         Clause("ID6", "g_default is not None or ('default' in result[1]) == False", when=["require=False,notyp", "require=False,typ"],
                note="nothing announced and no default required: no default is invented"),
         Clause("ID7", "g_default is not None or result[1]['default'] == '```(None)```'", when=["require=True,notyp"],
@@ -305,5 +323,30 @@ interpolate_defaults = Contract(
     ],
     canaries=["g_default is None"],
 )
+
+
+
+def _id_witness(case, vals, gvals):
+    """extract_default is applied by contract, so a counter-model has no prose that produces its g_default: build prose that announces it"""
+    out = []
+    d = case.params["param"][1][1][1]
+    g = gvals.get("g_default")
+    texts = [repr(g) if not isinstance(g, str) else g] if g is not None else []
+    for t in texts + ["5", "abc", "-3", "True"]:
+        for prose in ("the x. Defaults to ", "Defaults to "):
+            p = {"doc": prose + t}
+            if "typ" in d:
+                p["typ"] = vals.get("param_1_typ") or "str"
+            if "default" in d:
+                for old in (vals.get("param_1_default"), "previous", ""):
+                    if old is not None:
+                        out.append({"param": ("x", dict(p, default=old)), "default_search_announce": None,
+                                    "require_default": case.params["require_default"], "emit_default_doc": True})
+            else:
+                out.append({"param": ("x", p), "default_search_announce": None, "require_default": case.params["require_default"], "emit_default_doc": True})
+    return out
+
+
+interpolate_defaults.witness = _id_witness
 
 CONTRACTS = [extract_default, needs_quoting, set_default_doc, sdd_idempotent, interpolate_defaults]
